@@ -442,7 +442,10 @@ def batt_cap_fn(requested_energy, stay_dur, voltage, period):
 
         # Before that, we make sure that starting at init_soc of 0, it's
         # possible to deliver the requested energy with this battery.
-        if delta_soc_from_init_soc(0) < delta_soc:
+        # (Compared with a relative tolerance: a request of exactly the maximum
+        # rate for the whole stay - what force_feasible produces - is feasible
+        # and must not be lost to floating point rounding.)
+        if delta_soc_from_init_soc(0) < delta_soc * (1 - 1e-9):
             return -1
 
         # Since max energy delivered is decreasing in init_soc, we
